@@ -333,3 +333,66 @@ def neighbourhood(rng, s, n_trunc, n_inject, n_mut):
         else:
             out.append(huge_ints(rng, s))
     return out
+
+
+# ---- odd characters ---------------------------------------------------------
+# Characters on which "is this a digit / a letter / a blank / a line end" predicates of different
+# strictness disagree (char::is_numeric vs is_ascii_digit, Unicode case folding of [A-Z],
+# to_lowercase changing the byte length, White_Space vs Pattern_White_Space, ...), all multi-byte:
+# a cursor advanced by 1 or by the wrong length lands inside the character.
+ODD_CHARS = [
+    "\u00b2",        # SUPERSCRIPT TWO            (numeric, No)
+    "\u00bd",        # VULGAR FRACTION ONE HALF   (numeric, No)
+    "\u0663",        # ARABIC-INDIC DIGIT THREE   (Nd, 2 bytes)
+    "\u0967",        # DEVANAGARI DIGIT ONE       (Nd, 3 bytes)
+    "\uff11",        # FULLWIDTH DIGIT ONE        (Nd, 3 bytes)
+    "\U0001d7d8",    # MATHEMATICAL DOUBLE-STRUCK DIGIT ZERO (Nd, 4 bytes)
+    "\u2167",        # ROMAN NUMERAL EIGHT        (Nl)
+    "\u3007",        # IDEOGRAPHIC NUMBER ZERO    (Nl)
+    "\u2460",        # CIRCLED DIGIT ONE          (No)
+    "\u212a",        # KELVIN SIGN                (case-folds to k)
+    "\u017f",        # LATIN SMALL LETTER LONG S  (case-folds to s)
+    "\u0130",        # LATIN CAPITAL LETTER I WITH DOT ABOVE (to_lowercase is 2 chars / 3 bytes)
+    "\u0131",        # LATIN SMALL LETTER DOTLESS I
+    "\u1e9e",        # LATIN CAPITAL LETTER SHARP S (lowercase is 2 bytes shorter)
+    "\uff21",        # FULLWIDTH LATIN CAPITAL LETTER A (alphabetic, uppercase)
+    "\u0301",        # COMBINING ACUTE ACCENT
+    "\u20e3",        # COMBINING ENCLOSING KEYCAP
+    "\u2028",        # LINE SEPARATOR
+    "\u2029",        # PARAGRAPH SEPARATOR
+    "\u0085",        # NEXT LINE
+    "\u00a0",        # NO-BREAK SPACE (White_Space, not Pattern_White_Space)
+    "\u3000",        # IDEOGRAPHIC SPACE
+    "\u200b",        # ZERO WIDTH SPACE (not white space at all)
+    "\ufeff",        # BOM / ZERO WIDTH NO-BREAK SPACE
+    "\U0001f600",    # 4-byte emoji
+]
+
+# short texts exercising every numeric / name / quoted / state / action scanner of the three parsers
+ODD_YACC = [
+    ("N", "%token a 'b'\n%expect 1\n%expect-rr 2\n%left '+'\n%start A\n%%\nA: A '+' a %prec '+' { x } | 'b' ;\n%%\np"),
+    ("G", "%expect 1\n%expect-rr 2\n%epp a \"e\"\n%parse-param p: u8\n%%\nA -> u8: 'a' %prec 'a' { $1 } | %empty { 0 };"),
+    ("E", "%implicit_tokens w\n%avoid_insert 'a'\n%expect-unused B\n%expect 10\n%%\nA: 'a' | ;\nB: ;"),
+    ("F", "%grmtools{yacckind: Original(NoAction)}\n%expect 1\n%token a\n%%\nA: a %prec a {x};"),
+    ("F", "%grmtools {yacckind: Grmtools, n: 7}\n%expect-rr 2\n%%\nA -> T: 'a' { 1 } ;"),
+]
+ODD_LEX = [
+    "%x S1\n%s T\n%%\n[0-9]+ \"INT\"\n<S1,T>a{2,3} <+S1>'A'\n<S1>\\141 <-S1>;\n. 'T1'\n",
+    "%grmtools{!octal, size_limit: 1048576, case_insensitive}\n%%\n[a-z] \"ID\"\nx ;\n",
+]
+ODD_HEADERS = [
+    "%grmtools{yacckind: Original(YaccOriginalActionKind::NoAction), n: 12}",
+    "%grmtools {a: [1, \"s\\\"\", [B::c]], !f, g, test_files: \"*.t\",}",
+    " %grmtools{size_limit: 1048576, x: 007}\n",
+]
+
+
+def odd_everywhere(s, chars=None):
+    """every odd character inserted at every offset of `s` and replacing every character of `s`"""
+    out = []
+    for ch in (chars or ODD_CHARS):
+        for i in range(len(s) + 1):
+            out.append(s[:i] + ch + s[i:])
+        for i in range(len(s)):
+            out.append(s[:i] + ch + s[i + 1:])
+    return out
